@@ -939,6 +939,7 @@ theorem exec_openat_creat (μ : MutK) (d : Fd) (hd : 0 ≤ d) (name : Bytes) (fl
 theorem createFile_effect (μ : MutK) (hw : w.WF) (r : Resolver) (path parent name : Bytes)
     (hnul : parent.contains 0 = false) (flags perm : Nat) (d : Fd)
     (hsplit : Path.pathSplit path = .ok (parent, some name))
+    (hname : ¬ (name = Path.dot ∨ name = Path.dotdot))
     (hres : resolveInRoot w (if r.emulated then ecfg r.rflags false else kcfgK w r.rflags false) parent = .ok d) :
     exec μ w (Root.createFile (kenv w) { fd := w.root, resolver := r } path flags perm) =
       (μ.eff w (createFileCall d name flags perm), fdOut (μ.ans w (createFileCall d name flags perm)) "openat") := by
@@ -947,7 +948,27 @@ theorem createFile_effect (μ : MutK) (hw : w.WF) (r : Resolver) (path parent na
   rw [exec_mbind_ok μ w (exec_resolveParent_ok μ hw r path parent (some name) hnul d hsplit hres)]
   dsimp only
   rw [exec_try_then μ w _ _ (exec_close_ofExcept μ d)]
+  unfold Root.createFileOpen
+  rw [if_neg hname]
   exact exec_openat_creat μ d (resolved_nonneg hw hres) name flags perm
+
+/-- `Root::create_file` on a path whose final component is `.` or `..`: refused with `EISDIR` before any call on the
+parent — whatever the open flags (with `O_PATH` the kernel would ignore `O_CREAT` and look `..` up) -/
+theorem createFile_frame_dots (μ : MutK) (hw : w.WF) (r : Resolver) (path parent name : Bytes)
+    (hnul : parent.contains 0 = false) (flags perm : Nat) (d : Fd)
+    (hsplit : Path.pathSplit path = .ok (parent, some name))
+    (hname : name = Path.dot ∨ name = Path.dotdot)
+    (hres : resolveInRoot w (if r.emulated then ecfg r.rflags false else kcfgK w r.rflags false) parent = .ok d) :
+    exec μ w (Root.createFile (kenv w) { fd := w.root, resolver := r } path flags perm) =
+      (w, .error (.os EISDIR)) := by
+  unfold Root.createFile
+  simp only [M.bind_def, liftM_prog]
+  rw [exec_mbind_ok μ w (exec_resolveParent_ok μ hw r path parent (some name) hnul d hsplit hres)]
+  dsimp only
+  rw [exec_try_then μ w _ _ (exec_close_ofExcept μ d)]
+  unfold Root.createFileOpen
+  rw [if_pos hname]
+  rfl
 
 theorem createFile_frame_lookup (μ : MutK) (hw : w.WF) (r : Resolver) (path parent : Bytes) (name : Option Bytes)
     (hnul : parent.contains 0 = false) (flags perm : Nat) (e : Nat)
